@@ -1067,16 +1067,34 @@ def run(ctx: Ctx):
         ctx.sample({"stream": "oracle", "case": {**case, "values": case["values"][:4]}})
 
 
+def outside_quantifier(case) -> bool:
+    """a correspondence line whose shift is a non-negative integer: the property quantifies over negative integer and keyword
+    shifts only, so nothing the statement demands can fail on such an input"""
+    if not (isinstance(case, dict) and isinstance(case.get("line"), str)):
+        return False
+    ws = case["line"].split()
+    if len(ws) < 4 or ws[0] not in ("change", "cum"):
+        return False
+    try:
+        return int(ws[3]) >= 0
+    except ValueError:
+        return False
+
+
 def search(ctx: Ctx, seeds):
-    """failing-input search on the real code when a tie broke: the oracles alone, bigger budget"""
+    """failing-input search on the real code when a tie broke: the oracles alone, bigger budget.  When every disagreement
+    is about an input outside the property's quantifier (a non-negative integer shift: only the model's rejection clause
+    `change_rejects_leads` / `validShift` is concerned) a short confirmation run is enough."""
+    small = bool(seeds) and all(outside_quantifier(c) for c in seeds)
+    ctx.extra["search_budget"] = "short (all disagreements are about non-negative integer shifts, outside the property's quantifier)" if small else "full"
     for case in FIXED_ORACLE_CASES:
         run_oracle_case(ctx, case)
     rng = ctx.rng.fork("search")
-    for case in gen_variant_cases(ctx, rng.fork("variants"), 3000) + gen_reuse_cases(ctx, rng.fork("reuse"), 2000):
+    for case in gen_variant_cases(ctx, rng.fork("variants"), 200 if small else 3000) + gen_reuse_cases(ctx, rng.fork("reuse"), 150 if small else 2000):
         run_oracle_case(ctx, case)
         if len(ctx.failures) >= 5:
             return
-    for case in gen_oracle_cases(ctx, rng, 20000):
+    for case in gen_oracle_cases(ctx, rng, 1500 if small else 20000):
         run_oracle_case(ctx, case)
         if len(ctx.failures) >= 5:
             break
